@@ -183,6 +183,14 @@ def make_classes():
         def _init_leaf(self, rec: Rec, lid: int) -> None:
             self._rec, self._lid = rec, lid
 
+        # user components may be value types (two wrappers / sensors configured alike compare equal and
+        # hash alike): the composites must keep telling their parts apart by identity
+        def __eq__(self, other) -> bool:
+            return type(other) is type(self)
+
+        def __hash__(self) -> int:
+            return hash(type(self).__name__)
+
         def setup(self):
             self._rec.ev("setup", self._lid)
             super().setup()
@@ -290,6 +298,12 @@ def build(tree, rec: Rec):
     from pamiq_core.interaction.modular_env import ActuatorsDict, ModularEnvironment, SensorsDict
     from pamiq_core.interaction.wrappers import ActuatorWrapper, EnvironmentWrapper, SensorWrapper
 
+    scratch: list[dict] = []      # the mappings handed to constructors; the caller reuses them afterwards
+
+    def mapping(d: dict) -> dict:
+        scratch.append(d)
+        return d
+
     def wrap(w):
         if w[0] == "W":
             return RWrapper(rec, w[1])
@@ -303,20 +317,20 @@ def build(tree, rec: Rec):
         return fn
 
     def agent(a):
-        return RAgent(rec, a[1], {n: agent(c) for n, c in a[2]})
+        return RAgent(rec, a[1], mapping({n: agent(c) for n, c in a[2]}))
 
     def sensor(s):
         if s[0] == "S":
             return RSensor(rec, s[1])
         if s[0] == "SD":
-            return SensorsDict({n: sensor(c) for n, c in s[1]})
+            return SensorsDict(mapping({n: sensor(c) for n, c in s[1]}))
         return SensorWrapper(sensor(s[1]), wrap(s[2]))
 
     def actuator(a):
         if a[0] == "C":
             return RActuator(rec, a[1])
         if a[0] == "CD":
-            return ActuatorsDict({n: actuator(c) for n, c in a[1]})
+            return ActuatorsDict(mapping({n: actuator(c) for n, c in a[1]}))
         return ActuatorWrapper(actuator(a[1]), wrap(a[2]))
 
     def env(e):
@@ -325,12 +339,17 @@ def build(tree, rec: Rec):
         if e[0] == "EM":
             if e[1][0] == "SD" and e[2][0] == "CD" and (len(e[1][1]) + len(e[2][1])) % 2 == 0:
                 # the public convenience constructor, on half of the eligible shapes
-                return ModularEnvironment.from_dict({n: sensor(c) for n, c in e[1][1]},
-                                                    {n: actuator(c) for n, c in e[2][1]})
+                return ModularEnvironment.from_dict(mapping({n: sensor(c) for n, c in e[1][1]}),
+                                                    mapping({n: actuator(c) for n, c in e[2][1]}))
             return ModularEnvironment(sensor(e[1]), actuator(e[2]))
         return EnvironmentWrapper(env(e[1]), wrap(e[2]), wrap(e[3]))
 
-    return Interaction(agent(tree[1]), env(tree[2]))
+    root = Interaction(agent(tree[1]), env(tree[2]))
+    # the composites are built: what the caller does with its own dictionaries afterwards (a builder
+    # reusing one scratch dict for several groups) must not change what they consist of
+    for d in scratch:
+        d.clear()
+    return root
 
 
 # ------------------------------------------------------------------------------------------------
